@@ -12,6 +12,8 @@ import (
 	"errors"
 	"fmt"
 	"net/url"
+	"os"
+	"sort"
 	"strconv"
 	"strings"
 
@@ -273,6 +275,11 @@ func parseCase(s string) {
 	// oracle 1: grammar
 	judged, acc, want := grammar(s)
 	if judged {
+		if acc {
+			run.Count("parse_judged_accept")
+		} else {
+			run.Count("parse_judged_reject")
+		}
 		if acc != (err == nil) {
 			run.OracleFail(id, "grammar-accept", fmt.Sprintf("ParseReference(%q): accepted=%v, grammar says %v", s, err == nil, acc),
 				map[string]string{"op": "P", "input": s})
@@ -407,6 +414,57 @@ func namesOtherRepository(base registry.Reference, s string) bool {
 	}
 	rest := s[len(b):]
 	return !(rest == "" || rest[0] == ':' || rest[0] == '@')
+}
+
+// queryURLCases: the two builders that carry a query (oracle only, not modelled): the referrers
+// URL with an artifactType filter and the cross-repository mount URL.  As net/url sees them the
+// path must be exactly the slot and the query must decode to exactly the intended parameters.
+func queryURLCases(r *common.Rand) {
+	ats := []string{"application/vnd.example+type", "a b", "a&b=c", "x#y", "a?b", "\xc3\xa9", "%41", "a+b", "a/b;c=d", "=&", "application/vnd.oci.image.config.v1+json"}
+	for i := 0; i < run.Scale(1500, 30000); i++ {
+		ref, err := registry.ParseReference(randomValid(r))
+		if err != nil || registryVerdict(ref.Registry) != 1 {
+			continue
+		}
+		ref.Reference = randDigestValid(r)
+		if r.Bool() {
+			queryURLCase("referrers", r.Bool(), ref, common.Pick(r, ats))
+		} else if from, err := registry.ParseReference(randomValid(r)); err == nil {
+			queryURLCase("mount", r.Bool(), ref, from.Repository)
+		}
+	}
+}
+
+// queryURLCase: kind "referrers": arg = artifactType filter; kind "mount": arg = source repository
+// (a valid repository name; ref.Reference is the digest to mount).
+func queryURLCase(kind string, plain bool, ref registry.Reference, arg string) {
+	id := run.NewID()
+	run.Count("url_query_" + kind)
+	var u, wantPath string
+	want := map[string]string{}
+	if kind == "referrers" {
+		u = remote.VerifReferrersURL(plain, ref, arg)
+		wantPath = "/v2/" + ref.Repository + "/referrers/" + ref.Reference
+		want["artifactType"] = arg
+	} else {
+		u = remote.VerifMountURL(plain, ref, digest.Digest(ref.Reference), arg)
+		wantPath = "/v2/" + ref.Repository + "/blobs/uploads/"
+		want["mount"], want["from"] = ref.Reference, arg
+	}
+	rep := map[string]any{"op": "Q", "kind": kind, "plain": plain, "registry": ref.Registry, "repository": ref.Repository, "reference": ref.Reference, "input": arg}
+	pu, err := url.Parse(u)
+	if err != nil {
+		run.OracleFail(id, "url-query", fmt.Sprintf("%s URL %q of %+v does not parse: %v", kind, u, ref, err), rep)
+		return
+	}
+	q, qerr := url.ParseQuery(pu.RawQuery)
+	ok := qerr == nil && len(q) == len(want)
+	for k, v := range want {
+		ok = ok && len(q[k]) == 1 && q[k][0] == v
+	}
+	if !ok || pu.Host != ref.Host() || pu.User != nil || pu.Fragment != "" || pu.EscapedPath() != wantPath {
+		run.OracleFail(id, "url-query", fmt.Sprintf("%s URL %q of %+v (%q): host %q path %q query %v fragment %q; want path %q and exactly %v", kind, u, ref, arg, pu.Host, pu.EscapedPath(), q, pu.Fragment, wantPath, want), rep)
+	}
 }
 
 func repoCase(base registry.Reference, s string) {
@@ -865,13 +923,43 @@ func main() {
 	}
 
 	// URL builders on accepted references
-	for i := 0; i < run.Scale(2000, 40000); i++ {
+	for i := 0; i < run.Scale(8000, 100000); i++ {
 		ref, err := registry.ParseReference(randomValid(r))
 		if err != nil {
 			continue
 		}
 		kinds := []string{"manifest", "blob", "referrers", "taglist", "upload"}
 		urlCase(common.Pick(r, kinds), r.Bool(), ref)
+	}
+	queryURLCases(r)
+	coverageFloors()
+}
+
+// coverageFloors: a run in which one of the input classes silently produced (almost) nothing is a
+// broken run (layer R), not a pass.  The floors are far below what every seed produces.
+func coverageFloors() {
+	floors := map[string]int{
+		"parse_ok": 2000, "parse_judged_accept": 1500, "parse_judged_reject": 50000, "repo_ok": 2000, "repo_err": 5000,
+		"repo_other_path_rejected": 3000, "component_repo_ok": 5000, "component_digest_ok": 3000, "component_tag_ok": 500,
+		"op_mresolve": 500, "op_mfetchref": 500, "op_tag": 500, "op_pushref": 500, "op_bresolve": 500, "op_bfetchref": 500,
+		"op_sent": 3000, "op_refused": 3000, "op_ground_truth": 500,
+		"url_manifest": 100, "url_blob": 100, "url_referrers": 100, "url_taglist": 100, "url_upload": 100,
+		"url_query_referrers": 100, "url_query_mount": 100,
+	}
+	for v := 0; v < 8; v++ {
+		floors[fmt.Sprintf("op_variant_%d", v)] = 500
+	}
+	var low []string
+	for k, n := range floors {
+		if run.Dist[k] < n {
+			low = append(low, fmt.Sprintf("%s=%d<%d", k, run.Dist[k], n))
+		}
+	}
+	if len(low) > 0 {
+		sort.Strings(low)
+		fmt.Fprintln(os.Stderr, "coverage floor not reached:", strings.Join(low, " "))
+		run.Finish()
+		os.Exit(3)
 	}
 }
 
@@ -884,6 +972,8 @@ func replay(path string) {
 			repoCase(registry.Reference{Registry: c["registry"], Repository: c["repository"], Reference: c["basereference"]}, c["input"])
 		case "V":
 			componentCase(c["kind"], c["input"])
+		case "Q":
+			queryURLCase(c["kind"], c["plain"] == "true", registry.Reference{Registry: c["registry"], Repository: c["repository"], Reference: c["reference"]}, c["input"])
 		case "O":
 			// a replay without a variant (made from a model/implementation mismatch) runs all of them
 			lo, hi := 0, 7
